@@ -93,7 +93,7 @@ func (t *smtpTS) Descend(fn *ssa.Function) bool {
 	case t.m.stateWriter, t.m.send, t.m.readLine, t.m.dataRead:
 		return false
 	}
-	if t.m.isSendWrapper(fn) {
+	if t.m.isSendWrapper(fn) || t.m.macro(fn) != nil {
 		return false
 	}
 	return fn.Blocks != nil
@@ -105,6 +105,33 @@ func (t *smtpTS) Step(in ssa.Instruction, c eng.TSConfig) []eng.TSConfig {
 	case *ssa.Call:
 		callee := eng.StaticCallee(x.Common())
 		switch {
+		case m.macro(callee) != nil:
+			// reply, then transition, with the caller's arguments (in the helper's order)
+			mc := m.macro(callee)
+			doSend := func() {
+				pre, ok := m.sendPrefix(in)
+				cl := replyClass(pre, ok)
+				t.ev("reply", in, c, string(cl))
+				if cl != 'c' && c.C < 2 {
+					c.C++
+				}
+			}
+			doState := func() {
+				k, isConst, _ := m.stateArg(in)
+				if !isConst {
+					t.undec = append(t.undec, "state writer called with a non-constant state at "+t.c.P.InstrPos(in))
+					return
+				}
+				t.ev("enter:"+m.stateName[k], in, c, "")
+				c.A = k
+			}
+			if mc.send.Pos() < mc.state.Pos() {
+				doSend()
+				doState()
+			} else {
+				doState()
+				doSend()
+			}
 		case callee == m.stateWriter:
 			k, isConst, _ := m.stateArg(in)
 			if !isConst {
